@@ -412,6 +412,13 @@ class Gen:
             else:
                 lines.append(f"{{\"get\": {self.fresh('h')}}} := {r.choice([oa, ob])};")
         lines.append(f"print({oa}.n + {ob}.n);")
+        if r.random() < 0.5:
+            # items are evaluated left to right, a spread contributes what its list holds when it is reached
+            sx, bf = self.fresh("sx"), self.fresh("bf")
+            self.declare(sx, "mlist"); self.declare(bf, "mfunc")
+            lines += [f"{sx} := [{r.randrange(1, 9)}, {r.randrange(1, 9)}, {r.randrange(1, 9)}];", f"fn {bf}() {{", f"    {sx}[0] = 99;", "    return 0;", "}"]
+            lines.append(r.choice([f"print([{sx}.., {bf}()]);", f"print({ap}(fn() {{ return [{bf}(), {sx}..]; }}));",
+                                   f"print([{sx}.., {bf}(), {sx}..]);"]))
         return lines
 
     FAILS = [
@@ -419,7 +426,7 @@ class Gen:
         "print(9223372036854775807 + 1);", "print(1 / 0);", "zz = 1;", "[q1, q2] := [1];", "print(null->type());",
         "print(1());", "print(\"a\"[3]);", "if 1 { print(1); }", "for zz in 5 { print(1); }", "print([1] == 1);",
         "print(true && 1);", "print(-1 .. \"a\");", "x_dup := 1; x_dup := 2;", "print([1, 2][0 - 1]);", "print(f_undefined(1));",
-        "print({\"k\": 1}[1]);", "print([1,2,3][2:1]);", "print($\"${1}\");", "break;", "return 1;",
+        "print({\"k\": 1}[1]);", "print([1,2,3][2:1]);", "print([1, 2, 3][5:5]);", "print(\"abc\"[4:4]);", "print([][1:]);", "print($\"${1}\");", "break;", "return 1;",
     ]
 
     def program(self):
